@@ -284,7 +284,15 @@ impl<'a> World<'a> {
     }
 
     fn start(&mut self, slot: usize) {
-        let id = simple_id(&format!("n{slot}"), self.generation[slot], 7000 + slot as u16);
+        // Slots 3 and 4 advertise IPv6 addresses in forms that must survive the wire unchanged
+        // (IPv4-mapped, loopback).
+        let mut wid = WId::v4(&format!("n{slot}"), self.generation[slot], 7000 + slot as u16);
+        if slot == 3 {
+            wid.ip = WIp::V6([0, 0, 0, 0, 0, 0, 0, 0, 0, 0, 0xff, 0xff, 127, 0, 0, 1]);
+        } else if slot == 4 {
+            wid.ip = WIp::V6([0, 0, 0, 0, 0, 0, 0, 0, 0, 0, 0, 0, 0, 0, 0, 1]);
+        }
+        let id = wid.to_real();
         let cluster = self.cfg.cluster_of[slot] as usize % 2;
         let b = build_node(
             &id,
@@ -1543,6 +1551,9 @@ pub enum Profile {
     Partition,
     Membership,
     TwoClusters,
+    /// Large values (20-45 KB, each fitting a datagram alone) together with deletes, grace-period
+    /// clock advances and key GC: truncation, resets and collected tombstones in one history.
+    TruncGc,
 }
 
 fn val_small() -> impl Strategy<Value = Val> {
@@ -1553,6 +1564,10 @@ fn val_large() -> impl Strategy<Value = Val> {
     (prop_oneof![1 => Just(2u8), 2 => Just(3u8), 3 => Just(4u8)], 8_000u32..30_000, any::<u16>()).prop_map(|(class, len, seed)| Val { class, len, seed })
 }
 
+fn val_huge() -> impl Strategy<Value = Val> {
+    (prop_oneof![1 => Just(3u8), 2 => Just(4u8)], 20_000u32..45_000, any::<u16>()).prop_map(|(class, len, seed)| Val { class, len, seed })
+}
+
 fn wkind() -> impl Strategy<Value = WKind> {
     prop_oneof![5 => Just(WKind::Set), 2 => Just(WKind::SetTtl), 3 => Just(WKind::Delete), 2 => Just(WKind::DeleteTtl)]
 }
@@ -1560,7 +1575,7 @@ fn wkind() -> impl Strategy<Value = WKind> {
 fn adv(profile: Profile) -> BoxedStrategy<Adv> {
     let small = prop_oneof![3 => (1u32..2000).prop_map(Adv::Ms), 2 => (1u32..30).prop_map(Adv::Secs)];
     match profile {
-        Profile::Gc => prop_oneof![3 => small, 5 => (-1i8..=1).prop_map(Adv::KvGrace)].boxed(),
+        Profile::Gc | Profile::TruncGc => prop_oneof![3 => small, 5 => (-1i8..=1).prop_map(Adv::KvGrace)].boxed(),
         Profile::Membership => prop_oneof![4 => small, 2 => (-2i8..=2).prop_map(Adv::HalfDeadGrace), 2 => (-2i8..=2).prop_map(Adv::DeadGrace), 2 => (-2i8..=2).prop_map(Adv::PhiDeadline), 1 => (-1i8..=1).prop_map(Adv::KvGrace)].boxed(),
         _ => prop_oneof![8 => small, 1 => (-1i8..=1).prop_map(Adv::KvGrace), 1 => (-2i8..=2).prop_map(Adv::PhiDeadline), 1 => (-2i8..=2).prop_map(Adv::HalfDeadGrace)].boxed(),
     }
@@ -1570,6 +1585,7 @@ fn op_strategy(profile: Profile) -> BoxedStrategy<Op> {
     let n = any::<u16>();
     let val: BoxedStrategy<Val> = match profile {
         Profile::Truncation => prop_oneof![1 => val_small(), 3 => val_large()].boxed(),
+        Profile::TruncGc => prop_oneof![2 => val_small(), 5 => val_huge()].boxed(),
         _ => prop_oneof![12 => val_small(), 1 => val_large()].boxed(),
     };
     let write = (n, wkind(), 0u8..7, val).prop_map(|(node, kind, key, val)| Op::Write { node, kind, key, val }).boxed();
@@ -1596,6 +1612,7 @@ fn op_strategy(profile: Profile) -> BoxedStrategy<Op> {
         Profile::Partition => [18, 4, 2, 4, 2, 12, 18, 5, 10, 8, 7, 2, 0, 0, 3, 5],
         Profile::Membership => [10, 14, 6, 3, 14, 8, 12, 2, 3, 3, 3, 2, 5, 3, 10, 2],
         Profile::TwoClusters => [12, 4, 3, 2, 6, 22, 22, 4, 8, 1, 1, 2, 0, 0, 8, 5],
+        Profile::TruncGc => [28, 9, 1, 9, 1, 5, 14, 2, 3, 1, 1, 2, 0, 0, 2, 24],
     };
     let all = [write, advance, hb, gc, live, syn, deliver, drop, dup, cut, heal, join, crash, restart, round, handshake];
     let options: Vec<(u32, BoxedStrategy<Op>)> = w.iter().zip(all).filter(|(w, _)| **w > 0).map(|(w, s)| (*w, s)).collect();
@@ -1614,7 +1631,7 @@ fn fd_strategy(profile: Profile) -> BoxedStrategy<FdCfg> {
 
 fn cfg_strategy(profile: Profile, mon: Monitor) -> BoxedStrategy<SimCfg> {
     let kv_grace = match profile {
-        Profile::Gc => prop_oneof![3 => Just(2_000u64), 1 => Just(10_000u64)].boxed(),
+        Profile::Gc | Profile::TruncGc => prop_oneof![3 => Just(2_000u64), 1 => Just(10_000u64)].boxed(),
         _ => prop_oneof![2 => Just(2_000u64), 2 => Just(10_000u64), 3 => Just(3_600_000u64)].boxed(),
     };
     let predicate = if mon == Monitor::C13 { (0u8..4).boxed() } else { prop_oneof![4 => Just(0u8), 1 => 1u8..4].boxed() };
@@ -1647,8 +1664,8 @@ pub fn profiles_for(mon: Monitor) -> Vec<(u32, Profile)> {
     match mon {
         Monitor::C12 | Monitor::C13 => vec![(5, Profile::Membership), (1, Profile::Gc), (1, Profile::Partition)],
         Monitor::C16 => vec![(1, Profile::TwoClusters)],
-        Monitor::C01 => vec![(3, Profile::Small), (2, Profile::Truncation), (3, Profile::Gc), (2, Profile::Partition)],
-        _ => vec![(3, Profile::Small), (2, Profile::Truncation), (4, Profile::Gc), (2, Profile::Partition), (1, Profile::Membership)],
+        Monitor::C01 => vec![(3, Profile::Small), (2, Profile::Truncation), (3, Profile::Gc), (2, Profile::Partition), (3, Profile::TruncGc)],
+        _ => vec![(3, Profile::Small), (2, Profile::Truncation), (4, Profile::Gc), (2, Profile::Partition), (1, Profile::Membership), (2, Profile::TruncGc)],
     }
 }
 
@@ -1656,7 +1673,7 @@ pub fn case_strategy(mon: Monitor, max_ops: usize) -> BoxedStrategy<SimCase> {
     let options: Vec<(u32, BoxedStrategy<SimCase>)> = profiles_for(mon)
         .into_iter()
         .map(|(w, profile)| {
-            let len = if profile == Profile::Truncation { max_ops / 2 } else { max_ops };
+            let len = if matches!(profile, Profile::Truncation | Profile::TruncGc) { max_ops / 2 } else { max_ops };
             let ops = proptest::collection::vec(op_strategy(profile), 3..=len.max(4));
             let s: BoxedStrategy<SimCase> = if mon == Monitor::C01 {
                 (cfg_strategy(profile, mon), ops, fair_strategy()).prop_map(|(cfg, ops, fair)| SimCase { cfg, ops, fair: Some(fair) }).boxed()
